@@ -75,3 +75,32 @@ Definition gone (e : ev) : list nat :=
 Definition accepted_puts (l : list ev) : list Z := flat_map accepted l.
 Definition deliveries (l : list ev) : list (nat * Z) := flat_map delivered l.
 
+
+(** ---- re-entrant use: operations issued from inside a get's callback / errback ----
+    [react i] = the queue operations that the application's callback on get number [i] performs when that
+    get's Deferred fires (with an object, at once or later) or fails (cancelled).  In the code nothing
+    happens in [put] / [_cancelGet]+errback after the Deferred has been fired, so these operations run
+    exactly as if they had been issued right after the operation that fired the Deferred, depth first.
+    [run_re] executes them that way and also returns the flat list of operations it executed. *)
+Definition reaction_of (react : nat -> list op) (e : ev) : list op :=
+  match e with
+  | EDelivered i _ | EImmediate i _ | ECancelled i => react i
+  | _ => []
+  end.
+
+Section ReEntrant.
+  Variables (size backlog : option nat) (react : nat -> list op).
+
+  Fixpoint run_re (fuel : nat) (s : st) (ops : list op) : st * list ev * list op :=
+    match fuel with
+    | O => (s, [], [])
+    | S f =>
+        match ops with
+        | [] => (s, [], [])
+        | o :: r =>
+            let '(s1, e) := step size backlog s o in
+            let '(s2, es, done) := run_re f s1 (reaction_of react e ++ r) in
+            (s2, e :: es, o :: done)
+        end
+    end.
+End ReEntrant.
